@@ -104,6 +104,15 @@ def numBinSem (N : NumOps F) (o : String) : QV F → QV F → QV F :=
   | some g => g
   | none => fun _ _ => none
 
+/-- dimension vector of a plane angle (8th base dimension of the unit tables; `rad` has factor 1) -/
+def Dims.angle : Dims := [0, 0, 0, 0, 0, 0, 0, 1]
+
+/-- `np.sin(q)` etc.: `q.to('rad')` — a plain number or an angle, in radians; anything else raises -/
+def toRad (N : NumOps F) (a : Quant F) : Option F :=
+  if a.dims.nodim then some a.val
+  else if a.dims = Dims.angle then some (N.mul a.val a.k)
+  else none
+
 /-- `operate_args` by operator key -/
 def numFn (N : NumOps F) : String → List (QV F) → QV F
   | "par", [some a] => some a
@@ -111,9 +120,9 @@ def numFn (N : NumOps F) : String → List (QV F) → QV F
   | "log", [some a] => some ⟨N.log a.val, a.k, a.dims⟩             -- np.log keeps the base units
   | "log10", [some a] => some ⟨N.log10 a.val, a.k, a.dims⟩
   | "sqrt", [some a] => some ⟨N.sqrt a.val, N.sqrt a.k, a.dims.scale (1/2)⟩
-  | "sin", [some a] => if a.dims.nodim then some ⟨N.sin a.val, N.one, Dims.zero⟩ else none
-  | "cos", [some a] => if a.dims.nodim then some ⟨N.cos a.val, N.one, Dims.zero⟩ else none
-  | "tan", [some a] => if a.dims.nodim then some ⟨N.tan a.val, N.one, Dims.zero⟩ else none
+  | "sin", [some a] => (toRad N a).map fun x => ⟨N.sin x, N.one, Dims.zero⟩
+  | "cos", [some a] => (toRad N a).map fun x => ⟨N.cos x, N.one, Dims.zero⟩
+  | "tan", [some a] => (toRad N a).map fun x => ⟨N.tan x, N.one, Dims.zero⟩
   | "logb", [some a, some b] =>
       qdiv N ⟨N.log a.val, a.k, a.dims⟩ ⟨N.log b.val, b.k, b.dims⟩
   | "powb", [some a, some b] =>
@@ -171,16 +180,17 @@ def siBin (N : NumOps F) (o : String) (a b : Option (SQ F)) : Option (SQ F) :=
     else none
   | _, _ => none
 
-/-- documented functions on SI values: dimensionless arguments except `sqrt` and the base of `pow` -/
+/-- documented functions on SI values: dimensionless arguments except `sqrt` and the base of `pow`;
+    trigonometric functions take a plain number or an angle (SI value = radians) -/
 def siFn (N : NumOps F) : String → List (Option (SQ F)) → Option (SQ F)
   | "par", [some a] => some a
   | "exp", [some a] => if a.dims.nodim then some ⟨N.exp a.si, Dims.zero⟩ else none
   | "log", [some a] => if a.dims.nodim then some ⟨N.log a.si, Dims.zero⟩ else none
   | "log10", [some a] => if a.dims.nodim then some ⟨N.log10 a.si, Dims.zero⟩ else none
   | "sqrt", [some a] => some ⟨N.sqrt a.si, a.dims.scale (1/2)⟩
-  | "sin", [some a] => if a.dims.nodim then some ⟨N.sin a.si, Dims.zero⟩ else none
-  | "cos", [some a] => if a.dims.nodim then some ⟨N.cos a.si, Dims.zero⟩ else none
-  | "tan", [some a] => if a.dims.nodim then some ⟨N.tan a.si, Dims.zero⟩ else none
+  | "sin", [some a] => if a.dims.nodim ∨ a.dims = Dims.angle then some ⟨N.sin a.si, Dims.zero⟩ else none
+  | "cos", [some a] => if a.dims.nodim ∨ a.dims = Dims.angle then some ⟨N.cos a.si, Dims.zero⟩ else none
+  | "tan", [some a] => if a.dims.nodim ∨ a.dims = Dims.angle then some ⟨N.tan a.si, Dims.zero⟩ else none
   | "logb", [some a, some b] =>
       if a.dims.nodim ∧ b.dims.nodim then some ⟨N.div (N.log a.si) (N.log b.si), Dims.zero⟩ else none
   | "powb", [some a, some b] =>
